@@ -58,6 +58,50 @@ func init() {
 	mk("c15.out-vs-withdraw", 0, 3, softout, func(w *schedWorld) func() {
 		return func() { w.receive(w.bots[0], rs.updateMsg(w.bots[0], 0, 0, 0, true)) }
 	})
+	// ROUTE-REFRESH from a peer (its receive goroutine, shared lock only) concurrent with a withdrawal
+	// arriving from another peer: the refresh must not re-announce the withdrawn route from its snapshot
+	schedScenarios["c15.rr-vs-withdraw"] = &schedScenario{Name: "c15.rr-vs-withdraw",
+		Setup: func(w *schedWorld) []schedThread {
+			c01SchedBots(w, 3)
+			for _, b := range w.bots {
+				w.establish(b)
+			}
+			w.receive(w.bots[0], ann(w, 0, 0, 1), ann(w, 0, 1, 0))
+			w.receive(w.bots[1], ann(w, 1, 1, 1))
+			w.settleSetup()
+			simSetPolicies(w.simWorld, 0, 3)
+			return []schedThread{
+				{"recv-e2-routerefresh", func() { w.receive(w.bots[2], bgp.NewBGPRouteRefreshMessage(1, 0, 1)) }},
+				{"recv-e0-withdraw", func() { w.receive(w.bots[0], rs.updateMsg(w.bots[0], 0, 0, 0, true)) }},
+			}
+		},
+		Check: func(w *schedWorld) {
+			// only the refreshed peer is guaranteed to be in sync with the new export policy
+			rsx := &simRoutesScenario{}
+			b := w.bots[2]
+			p := w.peer(b)
+			exp, _ := rsx.expectedExport(w.simWorld, b, p)
+			k := len(w.batches[2])
+			for mask := 0; mask < 1<<max(k-1, 0) && mask < 64; mask++ {
+				cut := make([]bool, k)
+				for j := 0; j < k-1; j++ {
+					cut[j] = mask&(1<<j) != 0
+				}
+				view := map[string]string{}
+				for kk, v := range b.view {
+					view[kk] = v
+				}
+				if err := w.applyBatches(2, view, cut); err != nil {
+					w.violate("C15:sched:rr:unencodable", "%v", err)
+					continue
+				}
+				if a, e := simViewString(view), simViewString(exp); a != e {
+					d := simDiff(view, exp)
+					w.violate("C15:sched:rr-vs-withdraw:view-differs-from-fresh-export:"+d.class, "after ROUTE-REFRESH racing a withdrawal (coalescing pattern %b) %s holds\n%s but a fresh export gives\n%s%s", mask, b.spec.Name, a, e, d.text)
+					break
+				}
+			}
+		}}
 	mk("c15.both-vs-replace", 2, 1, both, func(w *schedWorld) func() { return func() { w.receive(w.bots[0], ann(w, 0, 1, 1)) } })
 }
 
@@ -75,10 +119,10 @@ func TestVerif_C15_Sched(t *testing.T) {
 		return
 	}
 	bound, budget := 1, 40*time.Second
-	names := []string{"c15.in-vs-replace", "c15.out-vs-announce"}
+	names := []string{"c15.in-vs-replace", "c15.rr-vs-withdraw"}
 	if vr.Thorough() {
 		bound, budget = 2, 8*time.Minute
-		names = []string{"c15.in-vs-replace", "c15.in-vs-other", "c15.out-vs-announce", "c15.out-vs-withdraw", "c15.both-vs-replace"}
+		names = []string{"c15.in-vs-replace", "c15.in-vs-other", "c15.out-vs-announce", "c15.out-vs-withdraw", "c15.rr-vs-withdraw", "c15.both-vs-replace"}
 	}
 	for _, n := range names {
 		schedExploreSharded(t, r, n, bound, 1, budget)
